@@ -269,3 +269,36 @@ def load_known_findings():
             if m:
                 res.append({"property": m.group(1), "key": m.group(2), "what": m.group(3)})
     return res
+
+
+# ---------------------------------------------------------------- anchored source drift
+ANCHORS_BASELINE = os.path.join(VERIF, "anchors-baseline.json")
+
+
+def _anchor_files(prop_id):
+    import json as _json
+    for line in open(os.path.join(VERIF, "properties.jsonl")):
+        p = _json.loads(line)
+        if p["id"] == prop_id:
+            return list(p.get("anchors", {}).get("files", []))
+    return []
+
+
+def _sha(path):
+    import hashlib
+    try:
+        return hashlib.sha256(open(path, "rb").read()).hexdigest()
+    except OSError:
+        return "<missing>"
+
+
+def anchor_drift(prop_id):
+    """Files the property is anchored in (properties.jsonl) whose content in /repo's working tree differs from
+    the committed baseline (anchors-baseline.json, written by tools/anchors at the registered commit).
+    Drift is not a violation: it makes the quick tier run a several times larger correspondence sample."""
+    import json as _json
+    try:
+        base = _json.load(open(ANCHORS_BASELINE))
+    except OSError:
+        return []
+    return [f for f in _anchor_files(prop_id) if base.get(f) != _sha(os.path.join(REPO, f))]
